@@ -73,6 +73,9 @@ func (e *c03Env) genFrameOpts(t *rapid.T, f *c03Flow, reverse bool) c03FrameOpts
 			}
 		}
 		o.Flags = rapid.SampledFrom(kinds).Draw(t, "tcpflags")
+		if reverse && !f.Tracked && (f.Origin == c03OrigInLocal || f.Origin == c03OrigInLan) && rapid.IntRange(0, 3).Draw(t, "open_from_wan") > 0 {
+			o.Flags = ksTCPSyn // the remote client opens the connection
+		}
 	}
 	o.Payload = rapid.SampledFrom([]int{0, 0, 1, 64, 120, 200, 600}).Draw(t, "payload")
 	if o.Flags == ksTCPSyn|ksTCPAck && o.Payload >= 64 && vkKnown("F8") {
@@ -218,6 +221,9 @@ var c03ClockSteps = []uint64{1, c03Sec / 2, c03Sec - 1, c03Sec, c03Sec + 1, 5 * 
 
 func (e *c03Env) actClock(t *rapid.T) {
 	d := rapid.SampledFrom(c03ClockSteps).Draw(t, "dt")
+	if rapid.Bool().Draw(t, "small_step") {
+		d = rapid.SampledFrom(c03ClockSteps[:5]).Draw(t, "dt_small")
+	}
 	e.setClock(e.now + d)
 	e.logf("CLOCK +%d ns", d)
 }
@@ -366,22 +372,32 @@ func c03History(t *rapid.T, unit string) {
 	e.setup(rapid.Bool().Draw(t, "redirect_peer"), sockMark, rapid.Bool().Draw(t, "has_task_helper"))
 	e.installProgram(vrGenProgram(t, vrOpts{MaxRules: 8}), true)
 	c03GenFlows(t, e)
-	t.Repeat(map[string]func(*rapid.T){
-		"fwd1":    e.actForward,
-		"fwd2":    e.actForward,
-		"fwd3":    e.actForward,
-		"fwd4":    e.actForward,
-		"fwd5":    e.actForward,
-		"rev1":    e.actReverse,
-		"rev2":    e.actReverse,
-		"clock1":  e.actClock,
-		"clock2":  e.actClock,
-		"conn":    e.actConnectivity,
-		"rules":   e.actRules,
-		"domain":  e.actDomain,
-		"socket":  e.actSocket,
-		"mapfull": e.actMapFull,
-	})
+	// weights through repeated keys (rapid picks the key uniformly)
+	acts := map[string]func(*rapid.T){"conn": e.actConnectivity, "rules": e.actRules, "domain": e.actDomain}
+	for i := 0; i < 10; i++ {
+		acts[fmt.Sprintf("fwd%d", i)] = e.actForward
+	}
+	for i := 0; i < 5; i++ {
+		acts[fmt.Sprintf("rev%d", i)] = e.actReverse
+	}
+	for i := 0; i < 3; i++ {
+		acts[fmt.Sprintf("clock%d", i)] = e.actClock
+	}
+	acts["env"] = func(t *rapid.T) {
+		switch rapid.IntRange(0, 3).Draw(t, "env") {
+		case 0:
+			e.actSocket(t)
+		case 1:
+			e.actMapFull(t)
+		default:
+			if e.mapFull {
+				e.actMapFull(t) // the table does not stay full for long
+			} else {
+				e.actConnectivity(t)
+			}
+		}
+	}
+	t.Repeat(acts)
 	nops := len(e.ops)
 	e.replaySlow()
 	for i := 0; i < e.prog.ExcludedF1; i++ {
